@@ -279,6 +279,12 @@ def _dump_load(col, rule="C11.R5"):
     it = S.mcall(mgr, "iter_expr_tasks_owner", ("sub", ("attr", mgr, "containers"), name))
     src_ok = src is not None and (src == it or src == S.fcall("list", it) or
                                   (src[:1] == ("acc",) and len(src[2]) == 1 and src[2][0][0] == "many" and src[2][0][2] == it and not src[2][0][1]))
+    raises = [e for e in sx.of_kind("raise")]
+    pre = [e for e in raises if sx.cfg.path_avoiding(sx.cfg.ENTRY, e.nid, [ev.nid])]
+    col.add(rule, "Manager.copy_expr_from#copy-not-refused-beforehand", not pre and sx.cfg.must_pass(sx.cfg.ENTRY, sx.cfg.EXIT, [ev.nid]),
+            sx.loc(pre[0]) if pre else sx.loc(ev),
+            "every normal path reaches self.load(...) and nothing refuses the copy before it (what the printed text may contain is for "
+            "load() -- i.e. Python's own evaluation -- to say)", f"raise at {[sx.loc(e) for e in pre]}" if pre else "")
     col.add(rule, "Manager.copy_expr_from#loads-source-definitions-verbatim", src_ok and owa == ow, sx.loc(ev),
             "copy_expr_from loads exactly the source manager's printed definitions, forwarding overwrite", S.show(ev.term)[:200])
     okb, factb = False, S.show(ns) if ns is not None else "no namespace argument"
